@@ -15,17 +15,17 @@ import (
 )
 
 type HandlerResult struct {
-	EP      *EntryPoint
-	Key     string
-	Fn      *ssa.Function
-	Outs    []*Outcome // committed outcomes: successful returns and loop iterations
-	Aborts  int
-	Cut     bool
-	Panics  int
-	X       *Explorer
+	EP           *EntryPoint
+	Key          string
+	Fn           *ssa.Function
+	Outs         []*Outcome // committed outcomes: successful returns and loop iterations
+	Aborts       int
+	Cut          bool
+	Panics       int
+	X            *Explorer
 	AbortOrigins map[string]int // error origins of the aborting paths
-	deltas  map[*Outcome][]ColDelta
-	nonneg  map[string]bool // loop atoms proven non-negative by induction
+	deltas       map[*Outcome][]ColDelta
+	nonneg       map[string]bool // loop atoms proven non-negative by induction
 }
 
 type E1 struct {
